@@ -77,18 +77,20 @@ def eval_dyad_amend(a, b, backend):
     return backend.kg_asarray(r)
 
 
-def _e_dyad_amend_in_depth(p, q, v):
-    if bknp.isarray(q) and len(q) > 1:
-        r = _e_dyad_amend_in_depth(p[q[0]], q[1:] if len(q) > 2 else q[1], v)
-        p = bknp.array(p, dtype=r.dtype)
-        p[q[0]] = r
+def _e_dyad_amend_in_depth(p, q, v, backend):
+    if not is_list(p):
+        raise IndexError("too many indices")
+    kind = getattr(getattr(p, 'dtype', None), 'kind', None)
+    if getattr(p, 'ndim', 0) == len(q) and not is_list(v) and ((kind == 'f' and backend.is_number(v)) or (kind in ('i','u') and backend.is_integer(v))):
+        p = bknp.array(p)
+        p[tuple(q)] = v
         return p
-    else:
-        p = bknp.array(p, dtype=object) if isinstance(v, (str, KGSym)) else bknp.array(p)
-        p[q] = v
-        return p
+    # one member is replaced at each level; the value may be of another kind than the members
+    r = [x for x in p]
+    r[q[0]] = v if len(q) == 1 else _e_dyad_amend_in_depth(r[q[0]], q[1:], v, backend)
+    return backend.kg_asarray(r)
 
-def eval_dyad_amend_in_depth(a, b):
+def eval_dyad_amend_in_depth(a, b, backend):
     """
 
         a:-b                                            [Amend-in-Depth]
@@ -103,7 +105,9 @@ def eval_dyad_amend_in_depth(a, b):
                       [[[0]]]:-1,[0 0 0]  -->  [[[1]]]
 
     """
-    return _e_dyad_amend_in_depth(a, b[1:], b[0])
+    if len(b) <= 1:
+        return a
+    return _e_dyad_amend_in_depth(a, [int(i) for i in b[1:]], b[0], backend)
 
 
 def eval_dyad_cut(a, b, backend):
@@ -1126,7 +1130,6 @@ def create_dyad_functions(klong):
 
     # Simple dyads that don't need backend or klong
     simple = {
-        ':-': eval_dyad_amend_in_depth,
         '_': eval_dyad_drop,
         ':@': eval_dyad_index_in_depth,
     }
@@ -1141,6 +1144,7 @@ def create_dyad_functions(klong):
         '*': lambda a, b: eval_dyad_multiply(a, b, backend),
         '-': lambda a, b: eval_dyad_subtract(a, b, backend),
         ':=': lambda a, b: eval_dyad_amend(a, b, backend),
+        ':-': lambda a, b: eval_dyad_amend_in_depth(a, b, backend),
         ':_': lambda a, b: eval_dyad_cut(a, b, backend),
         '=': lambda a, b: eval_dyad_equal(a, b, backend),
         '?': lambda a, b: eval_dyad_find(a, b, backend),
